@@ -79,7 +79,7 @@ class SwitchOpGen(OpGen):
         return {"op": "features", "disable": ks}
 
 
-WEIGHTS = {"features": 7, "update_attrs": 3, "paint": 5, "scenario": 0.7, "prim_seg": 1.2}
+WEIGHTS = {"features": 7, "update_attrs": 3, "paint": 5, "scenario": 0.7, "prim_seg": 1.2, "ctrl": 1.2}
 
 
 def cfg_fn(rng):
